@@ -46,3 +46,20 @@ def ref_dualthresh(sig, fs, f_range, amp_threshes=(1, 2), min_n_cycles=3, min_bu
         m = detect_bursts_dual_threshold(np.asarray(sig, dtype=float), fs, amp_threshes, f_range,
                                          min_n_cycles=min_n_cycles, min_burst_duration=min_burst_duration, **fk)
     return [bool(b) for b in m]
+
+
+def filter_accepts(n, fs, f_range, filter_kwargs=None):
+    """Does neurodsp accept this band-pass design for a signal of n samples (its own checks of the pass / transition
+    band and of the filter length)?  Used only to recognise designs that it accepts at (fs, f_range) and rejects at
+    (c*fs, c*f_range): its frequency-response check works at a fixed resolution in Hz."""
+    from neurodsp.filt import filter_signal
+    fk = dict(filter_kwargs or {})
+    if 'n_seconds' not in fk:
+        fk.setdefault('n_cycles', 3)
+    try:
+        with warnings.catch_warnings():
+            warnings.simplefilter('ignore')
+            filter_signal(np.zeros(n), fs, 'bandpass', tuple(f_range), remove_edges=False, **fk)
+        return True
+    except ValueError:
+        return False
